@@ -497,6 +497,34 @@ func runC06(c *Ctx) {
 				allInferable = false
 			}
 		}
+		// a well-formed block that announces (and carries) more / fewer columns than the targets, with and without rows
+		for _, extra := range []int{1, 2} {
+			more, err := buildCols(r, len(cols)+extra, rows, genOpts{}, func() *TNode { return cols[0].t })
+			if err != nil {
+				break
+			}
+			for i := range cols {
+				more[i] = cols[i]
+			}
+			var mb proto.Buffer
+			mblk := proto.Block{Columns: len(more), Rows: rows, Info: proto.BlockInfo{BucketNum: -1}}
+			if mblk.EncodeBlock(&mb, rev, inputOf(more)) != nil {
+				break
+			}
+			R.Count("mut:block-more-columns-than-targets")
+			R.Case(strings.Join(types, ",")+"|more|"+hx(mb.Buf), true)
+			csm := map[string]any{"kind": "block", "types": types, "rows": rows, "revision": rev, "mutation": fmt.Sprintf("%d columns for %d targets", len(more), len(cols)), "bytes": truncHex(mb.Buf)}
+			run(&c06Req{Kind: "block", Type: strings.Join(types, "\x00"), Rev: rev, Hex: hx(mb.Buf)}, csm, "")
+			if len(cols) > 1 {
+				var fb proto.Buffer
+				fblk := proto.Block{Columns: len(cols) - 1, Rows: rows, Info: proto.BlockInfo{BucketNum: -1}}
+				if fblk.EncodeBlock(&fb, rev, inputOf(cols[:len(cols)-1])) == nil {
+					R.Count("mut:block-fewer-columns-than-targets")
+					csf := map[string]any{"kind": "block", "types": types, "rows": rows, "revision": rev, "mutation": fmt.Sprintf("%d columns for %d targets", len(cols)-1, len(cols)), "bytes": truncHex(fb.Buf)}
+					run(&c06Req{Kind: "block", Type: strings.Join(types, "\x00"), Rev: rev, Hex: hx(fb.Buf)}, csf, "")
+				}
+			}
+		}
 		for rep := 0; rep < 8; rep++ {
 			data := append([]byte(nil), valid...)
 			desc := ""
